@@ -11,6 +11,7 @@ Parts
 import json
 import sys
 
+from harness import ref_text as RT
 from harness import core, gen_strings as G
 from harness.driver import Driver, DriverError
 from harness import observe as O
@@ -98,6 +99,10 @@ def part_text(ctx, drv):
         nontrivial = any(c in crit or ord(c) > 127 for c in a)
         ctx.case(core.h(['text', a, b]), nontrivial,
                  sample={'part': 'text', 'a': a, 'b': b, 'norm': mi['norm']} if nontrivial and len(a) > 3 else None)
+        # the harness's own reference normalisation is tied to the MODEL here (not to the code under test)
+        rn = mm.get('norm')
+        if isinstance(rn, dict) and 'ok' in rn and RT.ref_norm(a) != rn['ok']:
+            raise RuntimeError(f'harness/ref_text.ref_norm disagrees with the Lean model on {a!r}: {RT.ref_norm(a)!r} vs {rn["ok"]!r}')
         for fn in FNS:
             iv = mi.get(fn)
             if iv is None:
@@ -177,6 +182,10 @@ def part_sites(ctx, drv):
             mr = reasons[k].get('ok', '<bad>')
             if mr != (py_reason or ''):
                 ctx.diverge('domain:site_reason', {'op': 'site_reason', 'site': site, 't': t}, mr, py_reason or '')
+                if mr != '<bad>':
+                    # the Python predicate asks the implementation's own normalisation whether a note text is normal; where it
+                    # disagrees with the model's predicate the model decides, so that a changed normalisation cannot excuse itself
+                    py_reason = mr or None
         ctx.count(f'sites:{site}')
         ctx.count('sites:reason:' + (py_reason or 'in-domain'))
         ctx.case(core.h(['site', site, t]), any(c in "'\"\\\n`{}[]#/" for c in t),
